@@ -195,4 +195,16 @@ pub fn gen(args: &Args) {
             }
         }
     }
+    // hand-made trees that break perfect recall in each of the ways the rule can be broken, and the trees that forget
+    // only the own action (the specification states the verdict like for every other tree)
+    for (name, t) in crate::zoo::recall_breakers() {
+        id += 1;
+        out.line(&json!({"id": id, "tree": t, "edit": name, "node": 0}));
+    }
+    for pl in [1u8, 2] {
+        for deep in [false, true] {
+            id += 1;
+            out.line(&json!({"id": id, "tree": crate::zoo::forgot_action(pl, deep), "edit": "recall-action", "node": 0}));
+        }
+    }
 }
